@@ -194,6 +194,10 @@ func setFloatFromBigInt(value *big.Int, dst reflect.Value) {
 		PanicErrorConverting(value, dst.Type(), err)
 	}
 	dst.SetFloat(v)
+	// A float32 destination may have rounded the value.
+	if new(big.Float).SetInt(value).Cmp(big.NewFloat(dst.Float())) != 0 {
+		PanicCannotConvert(value, dst.Type())
+	}
 }
 
 func setFloatFromBigFloat(value *big.Float, dst reflect.Value) {
